@@ -1,5 +1,5 @@
 (* C02 — Fault-tolerant midpoint and median stay within the correct values. *)
-From ST Require Import Base.Ints Base.Sorting Model.NtpTime Model.Ftm Proofs.FtmProofs.
+From ST Require Import Base.Ints Base.Sorting Model.NtpTime Model.Ftm Model.FtmMeas Proofs.FtmProofs Proofs.FtmMeasProofs.
 From Coq Require Import ZArith List Sorting.Permutation.
 Import ListNotations.
 Open Scope Z_scope.
@@ -42,18 +42,150 @@ Theorem C02_no_overflow : forall x y, Z.abs x < 2^62 -> Z.abs y < 2^62 -> midpoi
 Proof. exact midpoint_exact. Qed.
 Print Assumptions C02_no_overflow.
 
-(* timestamped measurements, for EVERY sorted permutation s the (unstable) sort may leave behind *)
-Theorem C02_meas_ftm : forall ms s, is_sorted_perm ms s -> ms <> [] ->
-  ftm (map m_off ms) = Some (m_off (ftm_m_sorted s)) /\ m_err (ftm_m_sorted s) = false.
-Proof. exact meas_ftm_offset. Qed.
+(* the oracle for "only reorders" (multiset of the values unchanged, ascending order) accepts exactly the
+   sorted permutations of the slice before the call, i.e. exactly one slice: a dropped, duplicated or
+   overwritten element is rejected *)
+Theorem C02_reorder_oracle : forall before after,
+  C02_reorder_ok before after = true <-> Permutation before after /\ zsorted after.
+Proof. exact reorder_ok_iff. Qed.
+Print Assumptions C02_reorder_oracle.
+
+Theorem C02_reorder_oracle_unique : forall before after,
+  C02_reorder_ok before after = true <-> after = zsort before.
+Proof. exact reorder_ok_unique. Qed.
+Print Assumptions C02_reorder_oracle_unique.
+
+(* timemath.Midpoint itself: between its arguments below 2^62, in either order of the arguments *)
+Theorem C02_midpoint_contained : forall x y, Z.abs x < 2^62 -> Z.abs y < 2^62 ->
+  Z.min x y <= midpoint x y <= Z.max x y.
+Proof. exact mid_contained. Qed.
+Print Assumptions C02_midpoint_contained.
+
+Theorem C02_midpoint_oracle : forall x y, C02_mid_ok x y (midpoint x y) = true.
+Proof. exact mid_oracle. Qed.
+Print Assumptions C02_midpoint_oracle.
+
+(* beyond the bound nothing is claimed, and nothing could be: at |x| = |y| = 2^62 the int64 difference wraps *)
+Theorem C02_midpoint_bound_tight :
+  let x := - 2^62 in let y := 2^62 in
+  in_i64 x /\ in_i64 y /\ midpoint x y = min_i64 /\ midpoint x y < Z.min x y.
+Proof. exact mid_bound_tight. Qed.
+Print Assumptions C02_midpoint_bound_tight.
+
+(* ---- timestamped measurements ----
+   time.Time is modelled as Go represents a wall-clock time: int64 seconds since January 1 of year 1 and
+   0 <= nanoseconds < 10^9 (gt_wf); time.Time{} is (0, 0).  Sub, Add, addSec, After are transcriptions of
+   go1.24.2's src/time/time.go for times without monotonic reading (Model/FtmMeas.v). *)
+
+(* Time.Sub is the difference of the two instants saturated to int64 - for ALL pairs of representable times
+   (the overflow check u.Add(d).Equal(t) of the Go source never errs, not even at the ends of the range) *)
+Theorem C02_time_sub_saturates : forall t u, gt_wf t -> gt_wf u -> gt_sub t u = sat64 (gt_abs t - gt_abs u).
+Proof. exact gt_sub_spec. Qed.
+Print Assumptions C02_time_sub_saturates.
+
+(* Time.Add returns the exact sum whenever that is a representable time (otherwise its seconds saturate) *)
+Theorem C02_time_add_exact : forall t d, gt_wf t -> in_i64 d ->
+  min_i64 * ns_per_s <= gt_abs t + d < (max_i64 + 1) * ns_per_s -> gt_abs (gt_add t d) = gt_abs t + d.
+Proof. exact gt_add_exact. Qed.
+Print Assumptions C02_time_add_exact.
+
+(* the combined timestamp lies between the two timestamps: for ALL representable times, the zero time and
+   times more than 292 years apart (saturating Sub) included *)
+Theorem C02_meas_timestamp_between : forall x y, gt_wf (tm_ts x) -> gt_wf (tm_ts y) ->
+  Z.min (gt_abs (tm_ts x)) (gt_abs (tm_ts y)) <= gt_abs (tm_ts (tmidpoint x y))
+    <= Z.max (gt_abs (tm_ts x)) (gt_abs (tm_ts y)).
+Proof. exact tmid_ts_between. Qed.
+Print Assumptions C02_meas_timestamp_between.
+
+(* its exact value: earlier + sat64(later - earlier) quot 2 ... *)
+Theorem C02_meas_timestamp_value : forall x y, gt_wf (tm_ts x) -> gt_wf (tm_ts y) ->
+  let lo := Z.min (gt_abs (tm_ts x)) (gt_abs (tm_ts y)) in
+  let hi := Z.max (gt_abs (tm_ts x)) (gt_abs (tm_ts y)) in
+  gt_abs (tm_ts (tmidpoint x y)) = lo + Z.quot (sat64 (hi - lo)) 2.
+Proof. exact tmid_ts_value. Qed.
+Print Assumptions C02_meas_timestamp_value.
+
+(* ... which is the midpoint (rounded towards the earlier) as long as the two are at most 2^63-1 ns apart;
+   further apart it is earlier + (2^63-1)/2 ns: between, but not the midpoint *)
+Theorem C02_meas_timestamp_is_midpoint : forall x y, gt_wf (tm_ts x) -> gt_wf (tm_ts y) ->
+  Z.abs (gt_abs (tm_ts x) - gt_abs (tm_ts y)) <= max_i64 ->
+  let lo := Z.min (gt_abs (tm_ts x)) (gt_abs (tm_ts y)) in
+  let hi := Z.max (gt_abs (tm_ts x)) (gt_abs (tm_ts y)) in
+  gt_abs (tm_ts (tmidpoint x y)) = lo + (hi - lo) / 2.
+Proof. exact tmid_ts_is_midpoint. Qed.
+Print Assumptions C02_meas_timestamp_is_midpoint.
+
+Theorem C02_meas_timestamp_wf : forall x y, gt_wf (tm_ts x) -> gt_wf (tm_ts y) -> gt_wf (tm_ts (tmidpoint x y)).
+Proof. exact tmid_ts_wf. Qed.
+Print Assumptions C02_meas_timestamp_wf.
+
+(* for EVERY sorted permutation s the (unstable) sort may leave behind: offset = the plain function of the
+   offsets, error nil - whatever the errors of the inputs (errored measurements are sorted and selected like any other) *)
+Theorem C02_meas_ftm : forall ms s, tm_sorted_perm ms s -> ms <> [] ->
+  ftm (map tm_off ms) = Some (tm_off (tftm_sorted s)) /\ tm_err (tftm_sorted s) = false.
+Proof. exact tmeas_ftm_offset. Qed.
 Print Assumptions C02_meas_ftm.
 
-Theorem C02_meas_median : forall ms s, is_sorted_perm ms s -> ms <> [] ->
-  median (map m_off ms) = Some (m_off (median_m_sorted s)) /\ m_err (median_m_sorted s) = false.
-Proof. exact meas_median_offset. Qed.
+Theorem C02_meas_median : forall ms s, tm_sorted_perm ms s -> ms <> [] ->
+  median (map tm_off ms) = Some (tm_off (tmedian_sorted s)) /\ tm_err (tmedian_sorted s) = false.
+Proof. exact tmeas_median_offset. Qed.
 Print Assumptions C02_meas_median.
 
-Theorem C02_meas_timestamp_between : forall x y,
-  Z.min (m_ts x) (m_ts y) <= m_ts (midpoint_m x y) <= Z.max (m_ts x) (m_ts y).
-Proof. exact meas_timestamp_between. Qed.
-Print Assumptions C02_meas_timestamp_between.
+(* the two selected measurements are measurements of the input, and the result's timestamp lies between theirs *)
+Theorem C02_meas_ftm_selected : forall ms s, tm_sorted_perm ms s -> ms <> [] ->
+  In (fst (sel_ftm s)) ms /\ In (snd (sel_ftm s)) ms.
+Proof. exact sel_ftm_in. Qed.
+Print Assumptions C02_meas_ftm_selected.
+
+Theorem C02_meas_median_selected : forall ms s, tm_sorted_perm ms s -> ms <> [] ->
+  In (fst (sel_median s)) ms /\ In (snd (sel_median s)) ms.
+Proof. exact sel_median_in. Qed.
+Print Assumptions C02_meas_median_selected.
+
+Theorem C02_meas_ftm_timestamp : forall ms s, tm_sorted_perm ms s -> all_wf ms ->
+  let x := fst (sel_ftm s) in let y := snd (sel_ftm s) in
+  Z.min (gt_abs (tm_ts x)) (gt_abs (tm_ts y)) <= gt_abs (tm_ts (tftm_sorted s)) <= Z.max (gt_abs (tm_ts x)) (gt_abs (tm_ts y)).
+Proof. exact tmeas_ftm_timestamp. Qed.
+Print Assumptions C02_meas_ftm_timestamp.
+
+Theorem C02_meas_median_timestamp : forall ms s, tm_sorted_perm ms s -> all_wf ms ->
+  let x := fst (sel_median s) in let y := snd (sel_median s) in
+  Z.min (gt_abs (tm_ts x)) (gt_abs (tm_ts y)) <= gt_abs (tm_ts (tmedian_sorted s)) <= Z.max (gt_abs (tm_ts x)) (gt_abs (tm_ts y)).
+Proof. exact tmeas_median_timestamp. Qed.
+Print Assumptions C02_meas_median_timestamp.
+
+(* the measurement oracle for "only reorders" accepts exactly the model's slices: permutations of the FULL
+   records (timestamp, offset, error) in ascending order of offset *)
+Theorem C02_meas_reorder_oracle : forall before after,
+  C02_reorder_m_ok before after = true <-> tm_sorted_perm before after.
+Proof. exact reorder_m_ok_iff. Qed.
+Print Assumptions C02_meas_reorder_oracle.
+
+(* what the timestamp oracle accepts does lie between *)
+Theorem C02_ts_oracle_sound : forall x y r, gt_wf x -> gt_wf y -> C02_ts_ok x y r = true ->
+  gt_wf r /\ Z.min (gt_abs x) (gt_abs y) <= gt_abs r <= Z.max (gt_abs x) (gt_abs y).
+Proof. exact ts_oracle_sound. Qed.
+Print Assumptions C02_ts_oracle_sound.
+
+(* the whole oracle for timestamped measurements (slice only reordered as full records, error nil, timestamp
+   between the two selected, offset contained) holds for the model: all inputs, all tie orders *)
+Theorem C02_meas_ftm_oracle : forall tagged ms s, ms <> [] -> all_wf ms -> tm_sorted_perm ms s ->
+  map fst tagged = map tm_off ms -> C02_meas_ftm_ok tagged ms (tftm_sorted s) s = true.
+Proof. exact meas_ftm_oracle. Qed.
+Print Assumptions C02_meas_ftm_oracle.
+
+Theorem C02_meas_median_oracle : forall ms s, ms <> [] -> all_wf ms -> tm_sorted_perm ms s ->
+  C02_meas_median_ok ms (tmedian_sorted s) s = true.
+Proof. exact meas_median_oracle. Qed.
+Print Assumptions C02_meas_median_oracle.
+
+(* hypotheses satisfiable: zero time.Time{} and a modern time (Sub saturates), an errored input selected *)
+Example C02_meas_example :
+  let z := gt_zero in let now := {| gt_sec := 63895000000; gt_nsec := 999999999 |} in
+  let ms := [ {| tm_ts := now; tm_off := 30; tm_err := false |}; {| tm_ts := now; tm_off := 10; tm_err := false |};
+              {| tm_ts := z; tm_off := 20; tm_err := true |}; {| tm_ts := z; tm_off := 40; tm_err := false |} ] in
+  let s := isort tm_off ms in
+  all_wf ms /\ tm_sorted_perm ms s /\
+  tftm_sorted s = {| tm_ts := {| gt_sec := 4611686018; gt_nsec := 427387903 |}; tm_off := 25; tm_err := false |} /\
+  gt_sub now z = max_i64.
+Proof. exact meas_example. Qed.
